@@ -193,6 +193,10 @@ def run_case(case, observe_each=False, full=False):
         if wk == 'ok':
             run_until_quiet(Schedule({'policy': 'fifo'}), step_budget(prog))
             res.warm_wf_ex_id = wv.id
+        # the measured run starts with fresh outcome / attempt counters
+        om = OutcomeMap(case.get('outcomes'))
+        sim.W.outcome = om
+        sim.W.nact = {}
     kind, val = sim.start_workflow(case.get('wf_name') or prog['name'],
                                    dict(case.get('input') or {}), **params)
     if kind != 'ok':
@@ -277,7 +281,7 @@ def verdict(res, out_keys=None):
 
 
 def canon_rows(res, with_info=False, error_output=True, with_input=False,
-               root=None):
+               root=None, accepted_subs_only=False):
     """Canonical final rows with ids/timestamps erased (C02/C06/C10).
     with_input: the evaluated input of every action execution is part of the
     rows; root: only the execution tree of that root execution."""
@@ -298,7 +302,41 @@ def canon_rows(res, with_info=False, error_output=True, with_input=False,
             pass
         r2 = _R()
         r2.snap = snap
-        return canon_rows(r2, with_info, error_output, with_input)
+        return canon_rows(r2, with_info, error_output, with_input,
+                          accepted_subs_only=accepted_subs_only)
+    if accepted_subs_only:
+        # sub-workflow executions superseded by a rerun of their parent task
+        # (not accepted any more) and everything below them are not part of
+        # the result
+        dropped = set()
+        changed = True
+        tasks_wf = {t['id']: t['wf_ex_id'] for t in res.snap['task'].values()}
+        while changed:
+            changed = False
+            for w in res.snap['wf'].values():
+                if w['id'] in dropped or not w['task_execution_id']:
+                    continue
+                parent_wf = tasks_wf.get(w['task_execution_id'])
+                if (not w['accepted'] and w['state'] in
+                        ('SUCCESS', 'ERROR', 'CANCELLED')) or \
+                        parent_wf in dropped:
+                    dropped.add(w['id'])
+                    changed = True
+        if dropped:
+            keep_t = {t['id'] for t in res.snap['task'].values()
+                      if t['wf_ex_id'] not in dropped}
+
+            class _R2(object):
+                pass
+            r3 = _R2()
+            r3.snap = {
+                'wf': {k: v for k, v in res.snap['wf'].items()
+                       if k not in dropped},
+                'task': {k: v for k, v in res.snap['task'].items()
+                         if k in keep_t},
+                'action': {k: v for k, v in res.snap['action'].items()
+                           if v['task_execution_id'] in keep_t}}
+            return canon_rows(r3, with_info, error_output, with_input)
     acts_by_task = {}
     for a in res.snap['action'].values():
         acts_by_task.setdefault(a['task_execution_id'], []).append(a)
